@@ -60,22 +60,29 @@ pub struct IdentityCheck<T: Chunky> {
 }
 
 fn judge_identity<T: Chunky>(a: &T) -> Vec<Violation> {
+    let mut out = judge_identity_with(a, &T::fresh(), "");
+    out.extend(judge_identity_with(a, &T::dflt_(), ":default-constructed"));
+    out
+}
+
+fn judge_identity_with<T: Chunky>(a: &T, empty: &T, tag: &str) -> Vec<Violation> {
     let mut out = Vec::new();
     let before = a.dbg();
     let oa = a.observe_();
     // a.merge(&fresh)
     let x = a.clone();
+    let e0 = empty.clone();
     match guarded(move || {
         let mut x = x;
-        x.merge_(&T::fresh());
+        x.merge_(&e0);
         x
     }) {
-        Err(m) => out.push(Violation { sig: format!("{}.merge:empty-other:panic", T::NAME), detail: format!("merging a fresh estimator into {before} panicked: {m}") }),
+        Err(m) => out.push(Violation { sig: format!("{}.merge:empty-other:panic{tag}", T::NAME), detail: format!("merging a fresh estimator into {before} panicked: {m}") }),
         Ok(x) => {
             let ox = x.observe_();
             if !ox.bits_eq(&oa) {
                 out.push(Violation {
-                    sig: format!("{}.merge:empty-other:changes-statistics", T::NAME),
+                    sig: format!("{}.merge:empty-other:changes-statistics{tag}", T::NAME),
                     detail: format!("{}: merging a fresh empty estimator into {before} changed {}", T::NAME, oa.first_diff(&ox)),
                 });
             }
@@ -83,17 +90,18 @@ fn judge_identity<T: Chunky>(a: &T) -> Vec<Violation> {
     }
     // fresh.merge(&a)
     let y = a.clone();
+    let e0 = empty.clone();
     match guarded(move || {
-        let mut e = T::fresh();
+        let mut e = e0;
         e.merge_(&y);
         (e, y)
     }) {
-        Err(m) => out.push(Violation { sig: format!("{}.merge:empty-self:panic", T::NAME), detail: format!("merging {before} into a fresh estimator panicked: {m}") }),
+        Err(m) => out.push(Violation { sig: format!("{}.merge:empty-self:panic{tag}", T::NAME), detail: format!("merging {before} into a fresh estimator panicked: {m}") }),
         Ok((e, y)) => {
             let oe = e.observe_();
             if !oe.bits_eq(&oa) {
                 out.push(Violation {
-                    sig: format!("{}.merge:empty-self:differs-from-argument", T::NAME),
+                    sig: format!("{}.merge:empty-self:differs-from-argument{tag}", T::NAME),
                     detail: format!("{}: merging {before} into a fresh empty estimator gives {}", T::NAME, oa.first_diff(&oe)),
                 });
             }
